@@ -23,10 +23,12 @@ func canon(key int) (algo, format string) {
 	return certED, fmtED
 }
 
-func qNone(u string) reqSpec          { return reqSpec{sym: "none", user: u, method: "none"} }
-func qPW(u, pw string) reqSpec        { return reqSpec{sym: "pw", user: u, method: "password", password: pw} }
-func qKbd(u, ans string) reqSpec      { return reqSpec{sym: "kbd", user: u, method: "keyboard-interactive", ans: ans} }
-func qUnknown(u, m string) reqSpec    { return reqSpec{sym: "unknown", user: u, method: m} }
+func qNone(u string) reqSpec   { return reqSpec{sym: "none", user: u, method: "none"} }
+func qPW(u, pw string) reqSpec { return reqSpec{sym: "pw", user: u, method: "password", password: pw} }
+func qKbd(u, ans string) reqSpec {
+	return reqSpec{sym: "kbd", user: u, method: "keyboard-interactive", ans: ans}
+}
+func qUnknown(u, m string) reqSpec { return reqSpec{sym: "unknown", user: u, method: m} }
 func qQuery(u string, k int) reqSpec {
 	a, _ := canon(k)
 	return reqSpec{sym: "query", user: u, method: "publickey", key: k, query: true, algo: a}
